@@ -30,6 +30,9 @@ def cases(tier, seed):
             n2 = N + 1 - n
             for nets in ([n], [n, 0], [0, n], [n, n2] if b <= n2 else [n, n], [n, 0, n2] if b <= n2 else [0, n, 0]):
                 out.append(dict(kind="multiobs", nets=nets, b=b, eqk=1 if n % 2 else 0, din=2, seed=k, draws=d))
+            # same-sized tables, user dictionaries given in different insertion orders
+            for rot in (1, 2, 3):
+                out.append(dict(kind="multiobs", nets=[n, n] if rot == 1 else [n, n, n], b=b, eqk=1, din=1, rot=rot, seed=k, draws=min(d, 4)))
     return out
 
 
